@@ -8,11 +8,11 @@ import (
 
 // Type is a parsed ClickHouse type.
 type Type struct {
-	Base  string  // Int8, String, Array, ...
-	Args  []*Type // Array/Nullable/LowCardinality: 1, Map: 2, Tuple: n
+	Base  string   // Int8, String, Array, ...
+	Args  []*Type  // Array/Nullable/LowCardinality: 1, Map: 2, Tuple: n
 	Names []string // Tuple element names ("" when unnamed)
-	N     int     // FixedString size / DateTime64 precision / Decimal precision
-	Scale int     // Decimal scale
+	N     int      // FixedString size / DateTime64 precision / Decimal precision
+	Scale int      // Decimal scale
 	TZ    string
 	HasTZ bool
 	Enum  []EnumItem
